@@ -10,6 +10,7 @@ from typing import Any, Dict, List, Optional, Tuple
 from .. import chnm, codec, docs, parity
 from ..cfg import CFG
 from ..classmodel import all_controllers, all_options, class_const, module_classes
+from ..guards import canon_text
 from ..model import AnchorMissing, ClassInfo, NotConst, Repo, attr_chain, norm, stmts_of, walk_no_nested
 
 LEVEL = "other"
@@ -46,8 +47,9 @@ def run(repo: Repo, rep, tier: str):
 
 # ------------------------------------------------------------------------------------ R1
 def empty_synth_guard(repo: Repo, rep, P: str):
+    from .. import inline
     synth = repo.cls("Synth", module="rv.synth")
-    fn = repo.own_method(synth, "chunks")
+    fn = inline.flatten(repo, synth, repo.own_method(synth, "chunks"))
     rel = synth.file.rel
     construct = f"{rel}:Synth.chunks"
     rep.func("rv.synth.Synth.chunks")
@@ -89,7 +91,10 @@ def _attached_list(e: ast.AST) -> Optional[Tuple[str, str]]:
         if isinstance(n, (ast.ListComp, ast.GeneratorExp)) and len(n.generators) == 1:
             g = n.generators[0]
             if norm(g.iter).endswith(".controllers.items()") and len(g.ifs) == 1:
-                return _norm_recv(norm(g.iter)), _norm_recv(norm(g.ifs[0]))
+                cond = _norm_recv(norm(g.ifs[0]))
+                if isinstance(g.target, ast.Tuple) and len(g.target.elts) == 2 and isinstance(g.target.elts[1], ast.Name):
+                    cond = re.sub(rf"\b{re.escape(g.target.elts[1].id)}\b", "c", cond)     # the controller variable's name is immaterial
+                return _norm_recv(norm(g.iter)), cond
     return None
 
 
@@ -99,6 +104,9 @@ def tail_descriptor(rows: List[codec.WRow], fn: Optional[ast.FunctionDef] = None
     for r in rows:
         if fn is not None and r.kind == "chunk" and r.cid == "CMID" and r.payload_expr is not None:
             r.payload_expr = subst_locals(fn, r.payload_expr)
+        if r.kind == "magic" and r.cid == "SEND":
+            d["order"].append("SEND")
+            continue
         if r.kind == "chunk" and r.cid in ("CVAL", "CMID", "CHNK", "SEND"):
             d["order"].append(r.cid)
             p = r.payload
@@ -124,10 +132,10 @@ def tail_descriptor(rows: List[codec.WRow], fn: Optional[ast.FunctionDef] = None
             elif r.cid == "CHNK":
                 d["chnk_fmt"] = p.fmt.show() if p.fmt else None
                 d["chnk_src"] = _norm_recv(norm(p.args[0])) if p.args else None
-                d["chnk_guard"] = [_norm_recv(g) for g in r.guards if g not in ("module is not None",)]
+                d["chnk_guard"] = [canon_text(_norm_recv(g)) for g in r.guards if g not in ("module is not None",)]
         elif r.kind == "delegate" and "specialized_iff_chunks" in r.delegate:
             d["order"].append("SPECIAL")
-            d["special_guard"] = [_norm_recv(g) for g in r.guards if g not in ("module is not None",)]
+            d["special_guard"] = [canon_text(_norm_recv(g)) for g in r.guards if g not in ("module is not None",)]
     return d
 
 
@@ -649,9 +657,10 @@ def unit_before_dependant(repo: Repo, rep, P: str):
     send = repo.own_method(mr, "process_SEND")
     rel = mr.file.rel
     src = norm(send)
-    reversed_loop = "for (cnum, raw_value) in reversed(list(enumerate(self._cvals)))" in src or \
-        "for cnum, raw_value in reversed(list(enumerate(self._cvals)))" in src
-    forward_loop = "in enumerate(self._cvals)" in src and not reversed_loop
+    from .. import order
+    app = order.cval_application(repo)
+    reversed_loop = app.direction == -1
+    forward_loop = app.direction == +1
     n = 0
     for ci in module_classes(repo):
         ctls = all_controllers(repo, ci)
@@ -687,22 +696,25 @@ def unit_before_dependant(repo: Repo, rep, P: str):
         rep.violation(f"{P}.R5", f"{mod.file.rel}:Module.__init__", str(tests),
                       "the constructor must seed unit controllers before the controllers whose range depends on them", f"{mod.file.rel}:{init.lineno}")
     # positional coupling: cnum indexes the attached-controller key list built at STYP
-    styp = repo.own_method(mr, "process_STYP")
-    s2 = norm(styp)
-    if "for (name, controller) in new_module.controllers.items() if controller.attached(new_module)" in s2 or \
-            "for name, controller in new_module.controllers.items() if controller.attached(new_module)" in s2:
+    kl = order.reader_key_list(repo)
+    if kl.attached_first is True and not kl.problems:
         rep.ok(f"{P}.R5", f"{rel}:ModuleReader.process_STYP", "_controller_keys = attached controllers in order",
                "n-th stored value ↔ n-th attached controller (same filter as the writers)")
+    elif kl.attached_first is None or kl.problems:
+        rep.inconclusive(f"{P}.R5", f"{rel}:ModuleReader.process_STYP", kl.text[:200], f"key list construction not recognised {kl.problems[:2]}",
+                         f"{rel}:{kl.where}")
     else:
-        rep.violation(f"{P}.R5", f"{rel}:ModuleReader.process_STYP", s2[:200],
+        rep.violation(f"{P}.R5", f"{rel}:ModuleReader.process_STYP", kl.text[:200],
                       "the reader must map stored values to the ATTACHED controllers in definition order (the list the writers use)",
-                      f"{rel}:{styp.lineno}")
-    if "if cnum < len(self._controller_keys)" in src and "self.object.set_raw(controller_name, raw_value)" in src \
-            and "controller_name = self._controller_keys[cnum]" in src:
-        rep.ok(f"{P}.R5", f"{rel}:ModuleReader.process_SEND", "set_raw(self._controller_keys[cnum], raw_value)")
+                      f"{rel}:{kl.where}")
+    if app.positional is True:
+        rep.ok(f"{P}.R5", f"{rel}:ModuleReader.process_SEND", app.text[:160], "the n-th stored value goes to the n-th key through set_raw")
+    elif app.positional is False:
+        rep.violation(f"{P}.R5", f"{rel}:ModuleReader.process_SEND", app.text[:200], "stored values are no longer applied by position through set_raw",
+                      f"{rel}:{app.where}")
     else:
-        rep.violation(f"{P}.R5", f"{rel}:ModuleReader.process_SEND", src[:200], "stored values are no longer applied by position through set_raw",
-                      f"{rel}:{send.lineno}")
+        rep.inconclusive(f"{P}.R5", f"{rel}:ModuleReader.process_SEND", app.text[:200], "pairing of stored values and controller names not recognised",
+                         f"{rel}:{app.where}")
 
 
 # ------------------------------------------------------------------------------------ R6
